@@ -91,6 +91,7 @@ type vfState struct {
 	Sub    *vfSub
 	NilSub *vfSub
 	RK     map[vfKey]int // a map keyed by a named string type
+	Owner  string        // id of the run whose context the state generator was called with
 
 	Trail   []string
 	Count   int // number of critical sections performed on this state (read, yield, write back: lost updates show)
@@ -109,8 +110,8 @@ func vfNewState() *vfState {
 	return &vfState{P: &seven, M: map[string]int{"k": 1}, L: []string{"u", "v"}, Sub: &vfSub{X: 5}, RK: map[vfKey]int{"role": 3}}
 }
 
-// digest of the carried fields; the fresh value is "true|7|1|u,v|5|true|3"
-func (s *vfState) digest() string {
+// digest of the carried fields; the fresh value is "true|7|1|u,v|5|true|3|own"
+func (s *vfState) digest(cur string) string {
 	p, sub := "nil", "nil"
 	if s.P != nil {
 		p = fmt.Sprint(*s.P)
@@ -118,7 +119,11 @@ func (s *vfState) digest() string {
 	if s.Sub != nil {
 		sub = fmt.Sprint(s.Sub.X)
 	}
-	return fmt.Sprintf("%v|%s|%d|%s|%s|%v|%d", s.NilP == nil, p, s.M["k"], strings.Join(s.L, ","), sub, s.NilSub == nil, s.RK["role"])
+	own := "own"
+	if s.Owner != cur {
+		own = "foreign" // generated with another context than the run's own (e.g. the one Compile was called with, or another run's)
+	}
+	return fmt.Sprintf("%v|%s|%d|%s|%s|%v|%d|%s", s.NilP == nil, p, s.M["k"], strings.Join(s.L, ","), sub, s.NilSub == nil, s.RK["role"], own)
 }
 
 type vfErr struct{ Node string }
@@ -352,7 +357,7 @@ func (r *vfRun) nodeLambda(prefix string, sc *vfScenario, name string) *Lambda {
 			// read the state and write the exec line inside the state lock: log order = lock order
 			err := ProcessState[*vfState](ctx, func(_ context.Context, st *vfState) error {
 				r.cs(rc.rec, st, prefix, "body", name)
-				rc.rec.log(map[string]any{"ev": ev, "p": prefix, "n": name, "i": in, "st": append([]string{}, st.Trail...), "sx": st.digest()})
+				rc.rec.log(map[string]any{"ev": ev, "p": prefix, "n": name, "i": in, "st": append([]string{}, st.Trail...), "sx": st.digest(rc.id)})
 				if isRerun && !abort {
 					delete(st.Pending, name)
 				}
@@ -892,7 +897,11 @@ func (r *vfRun) compileOpts(sc *vfScenario, store CheckPointStore) []GraphCompil
 
 func (r *vfRun) newGraphOpts(sc *vfScenario) []NewGraphOption {
 	if sc.State {
-		return []NewGraphOption{WithGenLocalState(func(ctx context.Context) *vfState { return vfNewState() })}
+		return []NewGraphOption{WithGenLocalState(func(ctx context.Context) *vfState {
+			st := vfNewState()
+			st.Owner = r.cur(ctx).id // the generator is handed the context of the run it generates the state for
+			return st
+		})}
 	}
 	return nil
 }
@@ -1279,7 +1288,8 @@ func (r *vfRun) drive(rc *vfCall, run Runnable[map[string]any, map[string]any], 
 			if sc.SMod == k && sc.State {
 				mod = 100
 				opts = append(opts, WithStateModifier(func(ctx context.Context, path NodePath, state any) error {
-					if s, ok := state.(*vfState); ok && len(path.GetPath()) == 0 {
+					// (called for the top-level state and for the state of every nested graph that is resumed from its checkpoint)
+					if s, ok := state.(*vfState); ok {
 						s.Count += 100
 					}
 					return nil
